@@ -903,14 +903,14 @@ def run(ctx: Ctx):
         corpus = sorted((common.VERIF / "corpus" / "C14").glob("*.json"))
         for f in corpus:
             replay_case(ctx, impl, drv, json.loads(f.read_text()))
-        converter_cases(ctx, impl, drv, rng, ctx.budget(600, 20000))
-        nb = ctx.budget(120, 5000)
+        converter_cases(ctx, impl, drv, rng, ctx.budget(2000, 20000))
+        nb = ctx.budget(400, 5000)
         for _ in range(nb):
             base_case(ctx, impl, drv, spec, rng, quick)
-        for kind, n in (("site", ctx.budget(60, 2500)), ("disc", ctx.budget(25, 800)), ("events", ctx.budget(25, 800))):
+        for kind, n in (("site", ctx.budget(200, 2500)), ("disc", ctx.budget(60, 800)), ("events", ctx.budget(60, 800))):
             for _ in range(n):
                 site_case(ctx, impl, drv, spec, rng, quick, kind)
-        for _ in range(ctx.budget(40, 1200)):
+        for _ in range(ctx.budget(120, 1200)):
             tro_case(ctx, impl, drv, spec, rng, quick)
     finally:
         impl.cleanup()
